@@ -155,11 +155,7 @@ func (t *Translator) convertSingleMessage(msg AnthropicMessage) ([]map[string]in
 
 	// user msgs can have text + tool results, assistant msgs have text + tool uses
 	if msg.Role == "user" {
-		userMsg, toolMsgs := t.convertUserMessage(contentBlocks)
-		if userMsg != nil {
-			result = append(result, userMsg)
-		}
-		result = append(result, toolMsgs...)
+		result = append(result, t.convertUserMessage(contentBlocks)...)
 	} else if msg.Role == "assistant" {
 		assistantMsg := t.convertAssistantMessage(contentBlocks)
 		if assistantMsg != nil {
@@ -170,10 +166,23 @@ func (t *Translator) convertSingleMessage(msg AnthropicMessage) ([]map[string]in
 	return result, nil
 }
 
-// split user message into text + tool results (openai needs tool results as separate messages)
-func (t *Translator) convertUserMessage(blocks []interface{}) (map[string]interface{}, []map[string]interface{}) {
+// split user message into text + tool results (openai needs tool results as separate messages).
+// block order is kept: text collected so far is emitted as a user message when a tool_result is
+// reached, so results the client listed first (the order anthropic mandates) stay directly
+// behind the assistant tool_calls they answer and the trailing text follows them
+func (t *Translator) convertUserMessage(blocks []interface{}) []map[string]interface{} {
 	var textParts []string
-	var toolResults []map[string]interface{}
+	var result []map[string]interface{}
+
+	flushText := func() {
+		if len(textParts) > 0 {
+			result = append(result, map[string]interface{}{
+				"role":    "user",
+				"content": strings.Join(textParts, ""),
+			})
+			textParts = nil
+		}
+	}
 
 	for _, block := range blocks {
 		blockMap, ok := block.(map[string]interface{})
@@ -188,6 +197,8 @@ func (t *Translator) convertUserMessage(blocks []interface{}) (map[string]interf
 				textParts = append(textParts, text)
 			}
 		case contentTypeToolResult:
+			flushText()
+
 			// map tool_use_id to tool_call_id
 			toolUseID, _ := blockMap["tool_use_id"].(string)
 
@@ -201,7 +212,7 @@ func (t *Translator) convertUserMessage(blocks []interface{}) (map[string]interf
 				}
 			}
 
-			toolResults = append(toolResults, map[string]interface{}{
+			result = append(result, map[string]interface{}{
 				"role":         "tool",
 				"tool_call_id": toolUseID,
 				"content":      content,
@@ -212,15 +223,9 @@ func (t *Translator) convertUserMessage(blocks []interface{}) (map[string]interf
 		}
 	}
 
-	var userMsg map[string]interface{}
-	if len(textParts) > 0 {
-		userMsg = map[string]interface{}{
-			"role":    "user",
-			"content": strings.Join(textParts, ""),
-		}
-	}
+	flushText()
 
-	return userMsg, toolResults
+	return result
 }
 
 // combine text + tool uses into single openai message
